@@ -168,8 +168,14 @@ Proof. exact C04_C05_history_all_rt. Qed.
    create_copied_sub_element lists nobody twice (deep_copy allocates the copy of a sub-element after everything allocated for its
    elder siblings: disjoint id ranges above the parent), so the duplicate check on the walk is redundant: Known05b = false implies
    Known05a = false, and the statements for all 26 constructors hold with Known05b.  What the copy clauses of Known05b still decide by
-   running the model: a FAILED copy that allocated nodes; two identifiable elements of the copy with one path (possible when the
-   version filter drops the SHORT-NAME of two named containers with equally named contents); a copy that is not identifiable itself
+   running the model: a FAILED copy that allocated nodes; two identifiable elements of the copy with one path (GENUINE on the
+   generated tables and in the library: a sweep of RT finds the element kinds whose SHORT-NAME is valid in fewer versions than the
+   element itself and that keep named descendants in both versions - CAN-TP-ADDRESS / CAN-TP-CHANNEL, no SHORT-NAME in 4.0.1.
+   Input: in a 00050 file CAN-TP-CONFIG cfg / TP-ADDRESSS / CAN-TP-ADDRESS a and b, each with VARIATION-POINT / SDG / SDG-CAPTION
+   cap (paths /pkg/cfg/a/cap, /pkg/cfg/b/cap); create_copied_sub_element of the TP-ADDRESSS into a CAN-TP-CONFIG cfg2 of a
+   model whose file has version 4.0.1 returns Ok, both copied CAN-TP-ADDRESS lose their SHORT-NAME and the copy holds two
+   SDG-CAPTION with the one path /pkg/cfg2/cap, of which get_element_by_path finds the second only; probed against the library
+   with the harness set-up, source kept in work/coq/idx/c04probe_version_filter_main.rs); a copy that is not identifiable itself
    holding an element whose path is already in the destination's index (finding C04-copy-container-duplicates-paths). *)
 Theorem C04_copy_walk_nodup :
   forall (T : tables) (check_fn : N -> list N -> res bool) (self other : id) (pos m v : N) (w : world) (c : id) (w' : world),
